@@ -11,7 +11,8 @@ yields `Ok`/nil and its bindings are visible afterwards, a bare binder always su
 (`match_verdict*`); a block leaves the outer environment unchanged (`block_scopes_bindings`); a
 non-nil condition commits the branch even if the consequence is nil, a nil condition restarts the
 next branch from the block parameter (`branch_commit*`); every tuple field receives the flowing value
-(`tuple_fields_receive_flow`); a nilary callee ignores the flow (`nilary_ignores_flow`).
+(`tuple_fields_receive_flow`); a nilary callee ignores the flow (`nilary_ignores_flow`); evaluation only
+ever adds bindings in front of the environment (`seq_only_adds_bindings`).
 -/
 open QM.RefSem
 
@@ -377,6 +378,182 @@ theorem apply_binds_parameter (n : Nat) (nilary : Bool) (body : Expr) (cenv : En
     apply (n + 1) (.clo nilary (some body) cenv) arg =
       evalExpr n (("$", some arg) :: ("^", some (.clo nilary (some body) cenv)) :: cenv) arg body := by
   simp [QM.RefSem.apply]
+
+/-! ### Environments only grow -/
+
+/-- `P` holds of an `ok` result (nothing is claimed about the other outcomes) -/
+def OkSat {α : Type} (P : α → Prop) : Res α → Prop
+  | .ok a => P a
+  | _ => True
+
+theorem OkSat.bind {α β} {P : α → Prop} {Q : β → Prop} {a : Res α} {f : α → Res β}
+    (ha : OkSat P a) (hf : ∀ x, P x → OkSat Q (f x)) : OkSat Q (a.bind f) := by
+  cases a with
+  | ok x => exact hf x ha
+  | fuelOut => trivial
+  | err c => trivial
+  | unspec y => trivial
+
+/-- `env'` extends `env`: bindings are only ever added in front -/
+def Extends (env env' : Env) : Prop := ∃ bs, env' = bs ++ env
+
+theorem Extends.refl (env : Env) : Extends env env := ⟨[], rfl⟩
+theorem Extends.trans {a b c : Env} (h₁ : Extends a b) (h₂ : Extends b c) : Extends a c := by
+  obtain ⟨x, rfl⟩ := h₁
+  obtain ⟨y, rfl⟩ := h₂
+  exact ⟨y ++ x, by simp⟩
+
+theorem doMatch_extends (env : Env) (p : Pat) (v : Val) :
+    OkSat (fun r => Extends env r.2) (doMatch env p v) := by
+  unfold doMatch
+  split
+  · exact ⟨_, rfl⟩
+  · exact ⟨_, rfl⟩
+  · trivial
+
+theorem OkSat.mono {α} {P Q : α → Prop} {a : Res α} (h : OkSat P a) (hpq : ∀ x, P x → Q x) : OkSat Q a := by
+  cases a with
+  | ok x => exact hpq x h
+  | fuelOut => trivial
+  | err c => trivial
+  | unspec y => trivial
+
+structure EnvExt (n : Nat) : Prop where
+  evalSeq : ∀ env flow cs, OkSat (fun r => Extends env r.2) (evalSeq n env flow cs)
+  evalChain : ∀ env flow c, OkSat (fun r => Extends env r.2) (evalChain n env flow c)
+  evalTerms : ∀ env flow ts, OkSat (fun r => Extends env r.2) (evalTerms n env flow ts)
+  evalTerm : ∀ env flow t, OkSat (fun r => Extends env r.2) (evalTerm n env flow t)
+  evalFields : ∀ env flow fs acc inh,
+    OkSat (fun r => Extends env r.2.2) (evalFields n env flow fs acc inh)
+
+theorem envExt_zero : EnvExt 0 := by
+  constructor <;> intros <;>
+    simp [QM.RefSem.evalSeq, QM.RefSem.evalChain, QM.RefSem.evalTerms, QM.RefSem.evalTerm,
+      QM.RefSem.evalFields, OkSat]
+
+theorem envExt_succ (n : Nat) (ih : EnvExt n) : EnvExt (n + 1) := by
+  constructor
+  · intro env flow cs
+    cases cs with
+    | nil => simp only [QM.RefSem.evalSeq]; exact Extends.refl _
+    | cons c cs =>
+      simp only [QM.RefSem.evalSeq]
+      refine OkSat.bind (ih.evalChain env flow c) (fun x hx => ?_)
+      split
+      · exact hx
+      · split
+        · exact hx
+        · exact OkSat.mono (ih.evalSeq _ _ _) (fun _ h => Extends.trans hx h)
+  · -- evalChain
+    intro env flow c
+    cases c with
+    | mk pat terms =>
+      simp only [QM.RefSem.evalChain]
+      refine OkSat.bind (ih.evalTerms env flow terms) (fun x hx => ?_)
+      split
+      · exact hx
+      · exact OkSat.mono (doMatch_extends _ _ _) (fun _ h => Extends.trans hx h)
+  · -- evalTerms
+    intro env flow ts
+    cases ts with
+    | nil => simp only [QM.RefSem.evalTerms]; exact Extends.refl _
+    | cons t ts =>
+      simp only [QM.RefSem.evalTerms]
+      refine OkSat.bind (ih.evalTerm env flow t) (fun x hx => ?_)
+      exact OkSat.mono (ih.evalTerms _ _ _) (fun _ h => Extends.trans hx h)
+  · -- evalTerm
+    intro env flow t
+    have hpure : ∀ {α} (r : Res α) (g : α → Val),
+        OkSat (fun x : Val × Env => Extends env x.2) (r.bind fun a => .ok (g a, env)) := by
+      intro α r g
+      cases r <;> simp [Res.bind, OkSat, Extends.refl]
+    cases t with
+    | lit l => simp only [QM.RefSem.evalTerm]; exact Extends.refl _
+    | tuple name fields =>
+      simp only [QM.RefSem.evalTerm]
+      exact OkSat.bind (ih.evalFields env flow fields [] none) (fun x hx => hx)
+    | mtch p => simp only [QM.RefSem.evalTerm]; exact doMatch_extends _ _ _
+    | block e => simp only [QM.RefSem.evalTerm]; exact hpure _ _
+    | fn nilary body => simp only [QM.RefSem.evalTerm]; exact Extends.refl _
+    | access s accs =>
+      cases s with
+      | ripple => simp only [QM.RefSem.evalTerm]; exact hpure _ _
+      | builtin name => simp only [QM.RefSem.evalTerm]; exact hpure _ _
+      | var x =>
+        simp only [QM.RefSem.evalTerm]
+        refine OkSat.bind (P := fun _ => True) (by cases readVar env x <;> trivial) (fun b _ => ?_)
+        refine OkSat.bind (P := fun _ => True) (by cases project b accs <;> trivial) (fun v _ => ?_)
+        split
+        · exact hpure _ _
+        · exact Extends.refl _
+      | param =>
+        simp only [QM.RefSem.evalTerm]
+        refine OkSat.bind (P := fun _ => True) (by cases readVar env "$" <;> trivial) (fun b _ => ?_)
+        refine OkSat.bind (P := fun _ => True) (by cases project b accs <;> trivial) (fun v _ => ?_)
+        split
+        · exact hpure _ _
+        · exact Extends.refl _
+    | ref s accs =>
+      cases s with
+      | ripple => simp only [QM.RefSem.evalTerm]; trivial
+      | builtin name => simp only [QM.RefSem.evalTerm]; exact Extends.refl _
+      | var x =>
+        simp only [QM.RefSem.evalTerm]
+        refine OkSat.bind (P := fun _ => True) (by cases readVar env x <;> trivial) (fun b _ => ?_)
+        exact hpure _ _
+      | param =>
+        simp only [QM.RefSem.evalTerm]
+        refine OkSat.bind (P := fun _ => True) (by cases readVar env "$" <;> trivial) (fun b _ => ?_)
+        exact hpure _ _
+    | tail f =>
+      cases f with
+      | none =>
+        simp only [QM.RefSem.evalTerm]
+        refine OkSat.bind (P := fun _ => True) (by cases readVar env "^" <;> trivial) (fun b _ => ?_)
+        exact hpure _ _
+      | some xa =>
+        cases xa with
+        | mk x accs =>
+          simp only [QM.RefSem.evalTerm]
+          refine OkSat.bind (P := fun _ => True) (by cases readVar env x <;> trivial) (fun b _ => ?_)
+          refine OkSat.bind (P := fun _ => True) (by cases project b accs <;> trivial) (fun v _ => ?_)
+          exact hpure _ _
+    | tailRipple =>
+      simp only [QM.RefSem.evalTerm]
+      split
+      · exact hpure _ _
+      · trivial
+  · -- evalFields
+    intro env flow fs acc inh
+    cases fs with
+    | nil => simp only [QM.RefSem.evalFields]; exact Extends.refl _
+    | cons f rest =>
+      cases f with
+      | val label c =>
+        simp only [QM.RefSem.evalFields]
+        refine OkSat.bind (ih.evalChain env flow c) (fun x hx => ?_)
+        exact OkSat.mono (ih.evalFields _ _ _ _ _) (fun _ h => Extends.trans hx h)
+      | spread src =>
+        simp only [QM.RefSem.evalFields]
+        refine OkSat.bind (P := fun _ => True) (by cases src <;> simp [OkSat] <;> cases readVar env _ <;> trivial) (fun sv _ => ?_)
+        split
+        · exact ih.evalFields _ _ _ _ _
+        · trivial
+
+theorem envExt_all (n : Nat) : EnvExt n := by
+  induction n with
+  | zero => exact envExt_zero
+  | succ n ih => exact envExt_succ n ih
+
+/-- **Bindings persist and are never altered**: whatever a sequence (chain, term, tuple) does, the
+environment it leaves is the one it started from with bindings added in front — an earlier binding
+is never removed or overwritten (rebinding shadows). -/
+theorem seq_only_adds_bindings (n : Nat) (env env' : Env) (flow v : Val) (cs : List Chain)
+    (h : evalSeq n env flow cs = .ok (v, env')) : ∃ bs, env' = bs ++ env := by
+  have := (envExt_all n).evalSeq env flow cs
+  rw [h] at this
+  exact this
+
 
 /-! ### Concrete programs (the hypotheses above are satisfiable; the evaluator computes) -/
 
